@@ -93,7 +93,7 @@ WrapCalls(s) ==
     \cup {[C0 EXCEPT !.op = "walk", !.p = p, !.n = k, !.flag = <<a>>] : p \in {WorkP}, k \in {0, 2}, a \in {"SkipDir", "SkipAll"}}
     \cup (IF Kind = "failfs" THEN {} ELSE {[C0 EXCEPT !.op = "glob", !.p = AbsP(<<"w", g1>>)] : g1 \in {"*", "a*", "?"}}
                                              \cup {[C0 EXCEPT !.op = "glob", !.p = AbsP(<<"w", "*", "*">>)]})
-    \cup {[C0 EXCEPT !.op = o, !.p = p] : o \in {"exists", "isdir", "isempty"}, p \in P1x}
+    \cup {[C0 EXCEPT !.op = o, !.p = p] : o \in {"exists", "isdir"} \cup (IF Kind = "failfs" THEN {} ELSE {"isempty"}), p \in P1x}
     \cup HandleCalls(s)
 
 Impl == IF "VERIF_IMPL" \in DOMAIN IOEnv THEN IOEnv.VERIF_IMPL ELSE "memfs"
